@@ -99,7 +99,8 @@ TMutatePrior ==
 
 TMutateBegin ==
     /\ IsEvent("MutateBegin")
-    /\ LET o == [slots |-> ToSlots(Ev.slots), modes |-> Ev.modes, modesOK |-> Ev.modesOK] IN
+    /\ LET o == [slots |-> ToSlots(Ev.slots), modes |-> Ev.modes, modesOK |-> Ev.modesOK,
+                 periodic |-> Ev.periodic, reflective |-> Ev.reflective] IN
        /\ MutateBeginU(o)
        /\ Step(Failing(PcOk(pc = "resampled" /\ beta > 0) @@ MB_Clauses(o)))
 
